@@ -249,9 +249,18 @@ def build_t1(rnd, dyn, size, hr1, pad, ctls, oldn, style="rnd", canonical512=Fal
 
 def build(rnd, d):
     if d["b"] == "t2":
-        return build_t2(rnd, d["cc2"], d["extra"], d["pad"], [list(c) for c in d["ctls"]], d["oldn"], d["style"])
-    return build_t1(rnd, d["dyn"], d["size"], d["hr1"], d["pad"], [list(c) for c in d["ctls"]], d["oldn"],
-                    d["style"], d.get("canonical512", False), d.get("phys"))
+        lay = build_t2(rnd, d["cc2"], d["extra"], d["pad"], [list(c) for c in d["ctls"]], d["oldn"], d["style"])
+    else:
+        lay = build_t1(rnd, d["dyn"], d["size"], d["hr1"], d["pad"], [list(c) for c in d["ctls"]], d["oldn"],
+                       d["style"], d.get("canonical512", False), d.get("phys"))
+    if d.get("rsvd_ro"):       # the tag ignores writes to the bytes a memory control TLV reserves (configuration bytes)
+        ro = {a for lo, hi in lay["ro"] for a in range(lo, hi + 1)}
+        for c in d["ctls"]:
+            if c[0] == 2:
+                ro |= {a for a in ctl_range(c) if a < len(lay["mem0"])}
+        lay["ro"] = ranges(ro)
+        lay["desc"]["rsvd_ro"] = True
+    return lay
 
 
 def make_sim(lay):
@@ -473,6 +482,19 @@ def layouts_c01(rnd, quick):
                     except ValueError:
                         pass
     out += [d for _, d in threshold_layouts(quick)]
+    # large reserved blocks INSIDE a large data area: memory control size 00h (= 256 bytes) / 255 / 1 and lock control
+    # bit count 00h (= 256 bits = 32 bytes); the tag ignores writes to the reserved bytes
+    for j, (t, size) in enumerate(((2, 0), (2, 255), (2, 1), (1, 0), (1, 255))):
+        for frm in ((200, 420) if not quick else (200 + 37 * j,)):
+            for mk in ("t2", "t1d"):
+                try:
+                    frm = representable(frm)
+                    c = vary([t, frm, size, None, 3], j + frm)
+                    d = t2_desc(120, j % 4, [c], 40, "rnd") if mk == "t2" else t1_desc(True, 1024, 0x00, j % 8, [c], 40, "rnd")
+                    d["rsvd_ro"] = True
+                    out.append(d)
+                except ValueError:
+                    pass
     if quick:
         out.append(t2_desc(0x6D, 1, (), 300))
         out.append(t2_desc(0xFE, 3, (), 0, extra=32))
